@@ -335,6 +335,7 @@ pub fn edit_word<'s>(
             // we deleted a character, so the length of the word changed
             // adjust the excluded indices to the right of the delete idx accordingly
             exclude_indices = vt_set_map(exclude_indices, |idx: usize| -> (q: usize)
+                requires idx != delete_idx,   // the deleted position was editable, i.e. not excluded
                 ensures q == (if idx > delete_idx { idx - 1 } else { idx as int })
                 { if idx > delete_idx { idx - 1 } else { idx } });
             proof {
